@@ -17,6 +17,25 @@ fn triple(fen: &str, history: &[String], depth: u8) -> Option<String> {
     triple_pv(fen, history, depth).map(|x| x.0)
 }
 
+/// The same search started the way `Uci::go` starts it for `go depth N`: the depth is ALSO in the
+/// limits (bench and direct callers pass it as the iteration bound only).
+fn triple_as_go(fen: &str, history: &[String], depth: u8) -> Option<String> {
+    let (board, _, _) = searchrun::open(fen, history).ok()?;
+    let case = Case {
+        fen: fen.to_string(),
+        history: history.to_vec(),
+        limits: Limits { depth: Some(u128::from(depth)), ..Default::default() },
+        max_depth: Some(depth),
+        cut: Cut::None,
+        elapsed_ms: None,
+    };
+    let out = searchrun::run(&board, &case, &Opts { clear_cache: true, observe: false, neutral: false });
+    Some(match out.panicked {
+        Some(p) => format!("panic:{p}"),
+        None => format!("{} {} {}", out.best.unwrap_or_else(|| "-".into()), out.score.map_or("-".into(), |x| x.to_string()), out.nodes),
+    })
+}
+
 /// (best move, score, nodes) of a search from an emptied cache, and the principal variation of
 /// its last iteration report
 fn triple_pv(fen: &str, history: &[String], depth: u8) -> Option<(String, Vec<String>)> {
@@ -133,6 +152,18 @@ pub fn worker(args: &Args, w: &Worker) -> i32 {
         };
         let Some(b) = triple(fen, hist, *d) else { continue };
         w.count("searches", 3);
+        // the caller must not matter: `go depth N` (depth also in the limits) against the bench-style call
+        if let Some(g) = triple_as_go(fen, hist, *d) {
+            w.count("searches", 1);
+            w.count("searches_started_as_go_depth", 1);
+            if g != a {
+                w.violation(
+                    &format!("{fen}|{}|d{d}|caller", hist.join(",")),
+                    &format!("{fen} [{}] depth {d} from an emptied cache: ({a}) when the depth is passed as the iteration bound only (bench), ({g}) when it is also in the limits (go depth {d})", hist.join(" ")),
+                    &obj(vec![("kind", s("determinism")), ("fen", s(fen.clone())), ("history", report::arr_s(hist)), ("depth", i(*d)), ("as_go", J::Bool(true))]),
+                );
+            }
+        }
         if a != b {
             w.violation(
                 &format!("{fen}|{}|d{d}|same-process", hist.join(",")),
@@ -327,6 +358,12 @@ pub fn replay(doc: &J) -> i32 {
             return 2;
         }
         return i32::from(verdicts[0]);
+    }
+    if r.get("as_go").is_some() {
+        let a = triple(&fen, &hist, d);
+        let g = triple_as_go(&fen, &hist, d);
+        println!("bench-style: {a:?}; go-style: {g:?}");
+        return i32::from(a != g);
     }
     let v: Vec<Option<String>> = (0..4).map(|_| triple(&fen, &hist, d)).collect();
     println!("{v:?}");
